@@ -152,9 +152,33 @@ func modelSA(c *Ctx, id string, k skCase) error {
 	return err
 }
 
+
+// caseSA: the implementation's SA object for a case.  Half of the key sets get ONE long-lived object for all operations
+// of the run that use these keys (either role, genuine and forged input), the other half a fresh object per operation:
+// the properties must hold either way (state left behind by an earlier operation must not matter).
+var saCache = map[string]*security.IKESAKey{}
+
+func caseSA(k skCase) (*security.IKESAKey, error) {
+	key := k.s.String() + k.ks.sx()
+	long := len(k.ks.ai) > 0 && k.ks.ai[0]&1 == 0
+	if long {
+		if sa, ok := saCache[key]; ok {
+			return sa, nil
+		}
+	}
+	sa, err := saFromKeys(k.s, k.ks.d, k.ks.ai, k.ks.ar, k.ks.ei, k.ks.er, k.ks.pi, k.ks.pr)
+	if err == nil && long {
+		if len(saCache) > 256 {
+			saCache = map[string]*security.IKESAKey{}
+		}
+		saCache[key] = sa
+	}
+	return sa, err
+}
+
 // protectBoth: protect with implementation and model; reports correspondence; returns the wire (nil if not protected)
 func protectBoth(c *Ctx, k skCase, what string) ([]byte, string, error) {
-	sa, err := saFromKeys(k.s, k.ks.d, k.ks.ai, k.ks.ar, k.ks.ei, k.ks.er, k.ks.pi, k.ks.pr)
+	sa, err := caseSA(k)
 	if err != nil {
 		return nil, "", err
 	}
@@ -174,7 +198,7 @@ func protectBoth(c *Ctx, k skCase, what string) ([]byte, string, error) {
 }
 
 func unprotectBoth(c *Ctx, k skCase, role string, raw []byte, hdr string, what string) (string, error) {
-	sa, err := saFromKeys(k.s, k.ks.d, k.ks.ai, k.ks.ar, k.ks.ei, k.ks.er, k.ks.pi, k.ks.pr)
+	sa, err := caseSA(k)
 	if err != nil {
 		return "", err
 	}
